@@ -3,6 +3,7 @@ package main
 import (
 	"fmt"
 	"go/types"
+	"math"
 	"strconv"
 )
 
@@ -365,4 +366,238 @@ func (e *Exec) stringerResult(it Iface) (Str, bool) {
 		}
 	}
 	return Str{}, false
+}
+
+// ---- more string models (symbolic-capable) ----
+
+// asciiSpace decides whether byte b is ASCII white space; a symbolic byte >= 0x80
+// could be part of a Unicode space: the path is cut (ASCII assumption, stated by harnesses).
+func (e *Exec) isSpaceByte(b *Term) bool {
+	if b.IsConst() {
+		switch b.V {
+		case ' ', '\t', '\n', '\v', '\f', '\r':
+			return true
+		}
+		if b.V >= 0x80 {
+			// concrete non-ASCII byte inside an otherwise symbolic string: U+0085/U+00A0 etc. are rare; be exact for the common case
+			if b.V == 0xC2 || b.V == 0xE1 || b.V == 0xE2 || b.V == 0xE3 {
+				e.cut("unsupported-symbolic:unicode space candidate in symbolic string")
+			}
+		}
+		return false
+	}
+	if e.decide(Bin(OUle, Const(8, 0x80), b)) {
+		e.cut("unsupported-symbolic:non-ASCII byte where white space is tested (ASCII assumption)")
+	}
+	sp := Or(Or(Eq(b, Const(8, ' ')), And(Bin(OUle, Const(8, 9), b), Bin(OUle, b, Const(8, 13)))), tFalse)
+	return e.decide(sp)
+}
+
+func init() {
+	M := func(name string, f intrinsic) { intrinsics[name] = f }
+	native := func(e *Exec, name string) { e.modelsUsed[name+" (model)"]++ }
+	M("strings.Contains", func(e *Exec, a []Value) Value {
+		s, sub := a[0].(Str), a[1].(Str)
+		if s.Concrete() && sub.Concrete() {
+			return Bool(stringsContains(s.s, sub.s))
+		}
+		native(e, "strings.Contains")
+		if sub.Len() > s.Len() {
+			return tFalse
+		}
+		r := tFalse
+		for i := 0; i+sub.Len() <= s.Len(); i++ {
+			r = Or(r, strEq(s.Sub(i, i+sub.Len()), sub))
+		}
+		return r
+	})
+	M("strings.Index", func(e *Exec, a []Value) Value {
+		s, sub := a[0].(Str), a[1].(Str)
+		if s.Concrete() && sub.Concrete() {
+			return Const(64, uint64(int64(stringsIndex(s.s, sub.s))))
+		}
+		native(e, "strings.Index")
+		for i := 0; i+sub.Len() <= s.Len(); i++ {
+			if e.decide(strEq(s.Sub(i, i+sub.Len()), sub)) {
+				return Const(64, uint64(i))
+			}
+		}
+		return Const(64, ^uint64(0))
+	})
+	M("strings.IndexByte", func(e *Exec, a []Value) Value {
+		s, c := a[0].(Str), a[1].(*Term)
+		native(e, "strings.IndexByte")
+		for i := 0; i < s.Len(); i++ {
+			if e.decide(Eq(s.At(i), c)) {
+				return Const(64, uint64(i))
+			}
+		}
+		return Const(64, ^uint64(0))
+	})
+	M("strings.Split", func(e *Exec, a []Value) Value {
+		s, sep := a[0].(Str), a[1].(Str)
+		if s.Concrete() && sep.Concrete() {
+			return e.strSlice(stringsSplit(s.s, sep.s))
+		}
+		native(e, "strings.Split")
+		if !sep.Concrete() && sep.Len() == 0 {
+			e.cut("unsupported-symbolic:Split with empty symbolic separator")
+		}
+		if sep.Len() == 0 {
+			// split into UTF-8 sequences
+			var out []Value
+			for i := 0; i < s.Len(); {
+				_, w := e.decodeRune(s.Sub(i, s.Len()))
+				out = append(out, s.Sub(i, i+w))
+				i += w
+			}
+			return Slice{o: e.newObj("split"), v: out, ok: true}
+		}
+		var out []Value
+		start := 0
+		i := 0
+		for i+sep.Len() <= s.Len() {
+			if e.decide(strEq(s.Sub(i, i+sep.Len()), sep)) {
+				out = append(out, s.Sub(start, i))
+				i += sep.Len()
+				start = i
+				continue
+			}
+			i++
+		}
+		out = append(out, s.Sub(start, s.Len()))
+		return Slice{o: e.newObj("split"), v: out, ok: true}
+	})
+	M("strings.Fields", func(e *Exec, a []Value) Value {
+		s := a[0].(Str)
+		if s.Concrete() {
+			return e.strSlice(stringsFields(s.s))
+		}
+		native(e, "strings.Fields")
+		var out []Value
+		start := -1
+		for i := 0; i < s.Len(); i++ {
+			if e.isSpaceByte(s.At(i)) {
+				if start >= 0 {
+					out = append(out, s.Sub(start, i))
+					start = -1
+				}
+			} else if start < 0 {
+				start = i
+			}
+		}
+		if start >= 0 {
+			out = append(out, s.Sub(start, s.Len()))
+		}
+		return Slice{o: e.newObj("fields"), v: out, ok: true}
+	})
+	M("strings.TrimSpace", func(e *Exec, a []Value) Value {
+		s := a[0].(Str)
+		if s.Concrete() {
+			return Str{s: stringsTrimSpace(s.s)}
+		}
+		native(e, "strings.TrimSpace")
+		i, j := 0, s.Len()
+		for i < j && e.isSpaceByte(s.At(i)) {
+			i++
+		}
+		for j > i && e.isSpaceByte(s.At(j-1)) {
+			j--
+		}
+		return s.Sub(i, j)
+	})
+	M("strings.Count", func(e *Exec, a []Value) Value {
+		s, sub := a[0].(Str), a[1].(Str)
+		if s.Concrete() && sub.Concrete() {
+			return Const(64, uint64(stringsCount(s.s, sub.s)))
+		}
+		e.cut("unsupported-symbolic:strings.Count")
+		return nil
+	})
+}
+
+// ---- math ----
+func init() {
+	conc := func(name string, f func(float64) float64, op Op) {
+		intrinsics["math."+name] = func(e *Exec, a []Value) Value {
+			x := a[0].(*Term)
+			if x.IsConst() {
+				return FConst(f(x.Float()))
+			}
+			if op != OConst {
+				return FUn(op, x)
+			}
+			e.cut("unsupported-symbolic:math." + name)
+			return nil
+		}
+	}
+	conc("Ceil", math.Ceil, OFCeil)
+	conc("Floor", math.Floor, OFFloor)
+	conc("Trunc", math.Trunc, OFTrunc)
+	conc("Abs", math.Abs, OConst)
+	conc("Sqrt", math.Sqrt, OConst)
+	conc("Log10", math.Log10, OConst)
+	intrinsics["math.Pow"] = func(e *Exec, a []Value) Value {
+		x, y := a[0].(*Term), a[1].(*Term)
+		if x.IsConst() && y.IsConst() {
+			return FConst(math.Pow(x.Float(), y.Float()))
+		}
+		e.cut("unsupported-symbolic:math.Pow")
+		return nil
+	}
+	intrinsics["math.IsNaN"] = func(e *Exec, a []Value) Value { return FUn(OFIsNaN, a[0].(*Term)) }
+	intrinsics["math.IsInf"] = func(e *Exec, a []Value) Value {
+		x, s := a[0].(*Term), a[1].(*Term)
+		if !s.IsConst() {
+			e.cut("unsupported-symbolic:math.IsInf sign")
+		}
+		switch sg := sx(64, s.V); {
+		case sg > 0:
+			return And(FUn(OFIsInf, x), Not(FUn(OFIsNeg, x)))
+		case sg < 0:
+			return And(FUn(OFIsInf, x), FUn(OFIsNeg, x))
+		}
+		return FUn(OFIsInf, x)
+	}
+	intrinsics["math.Float64bits"] = func(e *Exec, a []Value) Value {
+		x := a[0].(*Term)
+		if x.IsConst() {
+			return Const(64, x.V)
+		}
+		if x.Op == OBV2F {
+			return x.A
+		}
+		e.cut("unsupported-symbolic:math.Float64bits")
+		return nil
+	}
+	intrinsics["math.Float64frombits"] = func(e *Exec, a []Value) Value { return BV2F(a[0].(*Term)) }
+	intrinsics["math.Inf"] = func(e *Exec, a []Value) Value {
+		return FConst(math.Inf(int(sx(64, a[0].(*Term).V))))
+	}
+	intrinsics["math.NaN"] = func(e *Exec, a []Value) Value { return FConst(math.NaN()) }
+}
+
+// ---- strconv integer formatting (symbolic-capable) ----
+func init() {
+	intrinsics["strconv.Itoa"] = func(e *Exec, a []Value) Value { return mkStr(e.fmtInt(a[0].(*Term), true, 10, false, 0)) }
+	intrinsics["strconv.FormatInt"] = func(e *Exec, a []Value) Value {
+		b := a[1].(*Term)
+		if !b.IsConst() || (b.V != 10 && b.V != 16) {
+			if a[0].(*Term).IsConst() && b.IsConst() {
+				return Str{s: strconv.FormatInt(sx(64, a[0].(*Term).V), int(b.V))}
+			}
+			e.cut("unsupported-symbolic:strconv.FormatInt base")
+		}
+		return mkStr(e.fmtInt(a[0].(*Term), true, b.V, false, 0))
+	}
+	intrinsics["strconv.FormatUint"] = func(e *Exec, a []Value) Value {
+		b := a[1].(*Term)
+		if !b.IsConst() || (b.V != 10 && b.V != 16) {
+			if a[0].(*Term).IsConst() && b.IsConst() {
+				return Str{s: strconv.FormatUint(a[0].(*Term).V, int(b.V))}
+			}
+			e.cut("unsupported-symbolic:strconv.FormatUint base")
+		}
+		return mkStr(e.fmtInt(a[0].(*Term), false, b.V, false, 0))
+	}
 }
